@@ -42,7 +42,10 @@ NEG = {  # seeded defect -> invariants that may reject it
     # the closure of a block has no deferred release: rendered into a hand-written component's own writer, it fills a
     # pooled buffer that nobody flushes or releases
     "blocknorelease": {"OneOwnerFlushes", "NilMeansComplete", "FaultMeansError"},
+    # GetBuffer skips Reset when the pooled buffer already points at the writer it is asked for (same-writer sequences)
+    "resetunlesssame": {"NoCarryOver", "LaterRendersUnaffected", "NilMeansComplete", "FaultMeansError", "Prefix"},
 }
+NEG_EXTRA = {"resetunlesssame": {"SameWriter": "= TRUE"}}
 
 
 BNEG = {"gohtml_err_put_noreset", "release_noreset"}   # RenderIOBytes.tla: seeded defects of the bytes.Buffer pool protocol
@@ -258,7 +261,11 @@ def main():
         "seq": dict(module="MCRenderIO", cfg="c.cfg", workers=8 if thorough else 4, timeout=1500,
                     files={"c.cfg": cfg("RenderIO_seq.cfg", Emit="= TRUE",
                                         **({"LitSizes": "= {1, 3}", "ExprSizes": "= {1, 4}"} if thorough else
-                                           {"SideKs": "= {0}", "LeafSizes": "= {}"}))}),
+                                           {"SideKs": "= {0}", "LeafSizes": "= {}", "HandKinds": "= {}"}))}),
+        # sequences of renders to ONE writer value that fails, recovers and is rendered to again
+        "same": dict(module="MCRenderIO", cfg="s.cfg", workers=8 if thorough else 4, timeout=1500,
+                     files={"s.cfg": cfg("RenderIO_same.cfg", Emit="= TRUE",
+                                         **({"LitSizes": "= {1, 3}"} if thorough else {"SideKs": "= {0}", "LeafSizes": "= {}", "HandKinds": "= {}"}))}),
         "big": dict(module="MCRenderIOBig", cfg="d.cfg", workers=8 if thorough else 2, timeout=1500,
                     files={"d.cfg": cfg("RenderIO_big.cfg", Emit="= TRUE"), "MCRenderIOBig.tla": big_text}),
     }
@@ -273,7 +280,7 @@ def main():
                                                    files={"n.cfg": cfg(base, Bug='= "%s"' % bug)})
     for bug in NEG:
         jobs["neg-" + bug] = dict(module="MCRenderIO", cfg="n.cfg", workers=1, timeout=600,
-                                  files={"n.cfg": cfg("RenderIO_neg.cfg", Bug='= "%s"' % bug)})
+                                  files={"n.cfg": cfg("RenderIO_neg.cfg", Bug='= "%s"' % bug, **NEG_EXTRA.get(bug, {}))})
     results = {}
     with cf.ThreadPoolExecutor(max_workers=16) as ex:
         fb = ex.submit(build)
@@ -284,7 +291,7 @@ def main():
         binp = fb.result()
 
     # ---- MC verdicts ------------------------------------------------------------------------------
-    for name in ("mc2", "mc3", "seq", "big"):
+    for name in ("mc2", "mc3", "seq", "same", "big"):
         r = results[name]
         if not r.ok:
             raise vlib.InfraError("RenderIO model (%s) does not satisfy its invariants (%s): spec and code model disagree"
@@ -310,7 +317,7 @@ def main():
 
     # ---- GEN: every terminal behaviour replayed on real generated code --------------------------
     cases = []
-    for name in ("mc2", "mc3", "seq", "big"):
+    for name in ("mc2", "mc3", "seq", "same", "big"):
         cs = results[name].tagged("CASE")
         if not cs:
             raise vlib.InfraError("no terminal behaviours emitted by %s" % name)
@@ -324,7 +331,8 @@ def main():
     cpath = os.path.join(sc, "cases.ndjson")
     vlib.write_ndjson(cpath, cases)
     frac = 0.03 if thorough else 0.25
-    total = dict(cases=0, renders=0, drift=0, doc_drift_programs=0, hook_calls=0, trace_events=0, programs=0)
+    total = dict(cases=0, renders=0, drift=0, doc_drift_programs=0, hook_calls=0, trace_events=0, programs=0,
+                 same_writer_same_buffer=0, same_writer_same_buffer_after_failure=0)
     kinds = {}
     traces = []
 
@@ -356,6 +364,11 @@ def main():
     missing = [k for k in need if not kinds.get(k)]
     if missing:
         raise vlib.InfraError("fault plan kinds never replayed: %s" % missing)
+    if total["same_writer_same_buffer_after_failure"] < 100:
+        raise vlib.InfraError("renders to the same writer value hardly ever drew the buffer of the preceding failed render from the pool "
+                              "(%d times): nothing was learnt about carry-over for one destination" % total["same_writer_same_buffer_after_failure"])
+    ck.set("renders_to_the_same_writer_that_got_the_buffer_of_the_preceding_render",
+           "%d (%d after a failed render)" % (total["same_writer_same_buffer"], total["same_writer_same_buffer_after_failure"]))
     if total["hook_calls"] < total["renders"]:
         raise vlib.InfraError("pool hooks fired %d times for %d renders: hook silent" % (total["hook_calls"], total["renders"]))
     sfx = vlib.harness_results(ck, _Filtered(fxp, failseen), "repository fixture: ")
@@ -466,7 +479,9 @@ def main():
                       "random_programs": "%d seeded programs of 3..6 ops, depth <= 3, Cap 2 and 3" % nbig,
                       "faults": "writer fault at every offset 0..len x {err, short, zero}; every expression / leaf component failing; "
                                 "ctx cancelled before start / by expression j; pairs writer x (expression|leaf)",
-                      "sequences": "3 renders (any fault, any fault, none), pool Get nondeterministic, programs up to 2 ops",
+                      "sequences": "3 renders (any fault, any fault, none), pool Get nondeterministic, programs up to 2 ops; once with a writer "
+                                   "per render and once with ONE writer value that fails, recovers and is rendered to again; every other "
+                                   "replay chain (plan, next plan, none) also goes to one writer value",
                       "bytes_pool": "all sequences of 3 renders over {ToGoHTML, buffered Handler} x {ComponentFunc, generated template} x "
                                     "documents of %s chunks x {ok, error after k = 0..n chunks}" % bl[2:]})
     ck.set("rule", "every terminal state of the TLC runs (program x cap x StringWriter? x fault plan [x 3-render sequence]) replayed on real "
